@@ -26,13 +26,13 @@ type c17Case struct {
 }
 
 func genC17(t *rapid.T) *c17Case {
-	c := &c17Case{Kind: rapid.SampledFrom([]string{"encode", "encode", "encode", "libwebp", "vp8gen", "trailing"}).Draw(t, "kind")}
+	c := &c17Case{Kind: rapid.SampledFrom([]string{"encode", "encode", "encode", "libwebp", "vp8gen", "trailing", "reorder"}).Draw(t, "kind")}
 	max := 20
 	if tierThorough() {
 		max = 48
 	}
 	switch c.Kind {
-	case "encode", "trailing":
+	case "encode", "trailing", "reorder":
 		im := gen.DrawImg(t, gen.ImgCfg{MaxSide: max, Kinds: []string{"nrgba"}, Places: []string{"tight"}})
 		var o *gen.Opts
 		if rapid.IntRange(0, 2).Draw(t, "lossless") == 0 {
@@ -50,6 +50,39 @@ func genC17(t *rapid.T) *c17Case {
 		}
 		c.File = b
 		c.Desc = map[string]any{"img": im.Summary(), "opts": o.Summary()}
+		if c.Kind == "reorder" {
+			// the container format lets metadata and unknown chunks appear anywhere after VP8X; other
+			// writers put EXIF/XMP in front of the image data. Same chunks, metadata (plus an unknown chunk) first.
+			o.DrawMeta(t, 24)
+			if b2, err := encodeImg(im.Build(), o); err == nil {
+				b = b2
+				c.File = b
+			}
+			if rf, err := riffwalk.Parse(b); err == nil && rf.HasVP8X {
+				var head, meta, rest [][]byte
+				for _, ch := range rf.Chunks {
+					raw := riffChunk(ch.ID, ch.Data, true)
+					switch ch.ID {
+					case "VP8X", "ICCP":
+						head = append(head, raw)
+					case "EXIF", "XMP ":
+						meta = append(meta, raw)
+					default:
+						rest = append(rest, raw)
+					}
+				}
+				if rapid.Bool().Draw(t, "unknownFirst") {
+					meta = append(meta, riffChunk("JUNK", []byte("unknown chunk payload"), true))
+				}
+				all := append(append(head, meta...), rest...)
+				if f := riffFile(all...); len(meta) > 0 {
+					if _, err := webp.Decode(bytes.NewReader(f)); err == nil {
+						c.File = f
+						c.Desc = map[string]any{"img": im.Summary(), "opts": o.Summary(), "layout": "metadata before image data"}
+					}
+				}
+			}
+		}
 		if c.Kind == "trailing" {
 			// a valid file followed by an unknown chunk inside the RIFF payload (extended files only)
 			if rf, err := riffwalk.Parse(b); err == nil && rf.HasVP8X {
